@@ -246,6 +246,7 @@ type c16Case struct {
 	hdrVal   string
 	otherHdr bool
 	rawCE    []string // values the caller stored under the non-canonical key "content-encoding"
+	reads   int    // Read pattern of the request body (0 = bytes.Reader; else c16ShapedBody, an opaque reader)
 	chunked bool   // the body is handed over as an opaque reader: no length declared, sent chunked
 	method  string // not an input of the model: nothing may depend on it
 	rerr    bool // the request body's Read fails after delivering the bytes
@@ -469,6 +470,47 @@ func (d *c16DirectRT) RoundTrip(req *http.Request) (*http.Response, error) {
 	return rec.Result(), nil
 }
 
+// c16ShapedBody delivers its bytes by one of the Read patterns the io.Reader contract allows:
+// 1 = as much as fits, the LAST data together with io.EOF; 2 = one byte per call, then (0, EOF);
+// 3 = short reads of 1..7 bytes with (0, nil) reads in between, then (0, EOF); 4 = chunks of 5 bytes,
+// the last one together with io.EOF.
+type c16ShapedBody struct {
+	data  []byte
+	shape int
+	calls int
+}
+
+func (b *c16ShapedBody) Read(p []byte) (int, error) {
+	b.calls++
+	if len(p) == 0 {
+		return 0, nil
+	}
+	lim := len(p)
+	switch b.shape {
+	case 2:
+		lim = 1
+	case 3:
+		if b.calls%2 == 0 {
+			return 0, nil
+		}
+		lim = 1 + b.calls%7
+	case 4:
+		lim = 5
+	}
+	if lim > len(p) {
+		lim = len(p)
+	}
+	if len(b.data) == 0 {
+		return 0, io.EOF
+	}
+	n := copy(p[:lim], b.data)
+	b.data = b.data[n:]
+	if len(b.data) == 0 && (b.shape == 1 || b.shape == 4) {
+		return n, io.EOF
+	}
+	return n, nil
+}
+
 type c16FlakyBody struct {
 	data       []byte
 	rerr, cerr bool
@@ -660,6 +702,9 @@ walk:
 		body = bytes.NewReader(cs.body)
 		if cs.chunked {
 			body = struct{ io.Reader }{body}
+		}
+		if cs.reads != 0 {
+			body = &c16ShapedBody{data: cs.body, shape: cs.reads}
 		}
 		if cs.rerr || cs.cerr {
 			body = &c16FlakyBody{data: cs.body, rerr: cs.rerr, cerr: cs.cerr}
@@ -1060,8 +1105,8 @@ func (cs *c16Case) term() string {
 	if cs.hdrSet {
 		hdr = "(Some " + vStr(cs.hdrVal) + ")"
 	}
-	return fmt.Sprintf("EC %s %s %s %s %s %s %s %s %s %s %s %s %s %s %s %s %s %s %s %s %s %s %s %s %s %s %s %s",
-		vStr(cs.typ), vZ(int64(cs.level)), hdr, c16Strs(cs.preset), c16Strs(cs.rawCE), body, vBool(cs.chunked), vBool(cs.rerr), vBool(cs.cerr),
+	return fmt.Sprintf("EC %s %s %s %s %s %s %s %s %s %s %s %s %s %s %s %s %s %s %s %s %s %s %s %s %s %s %s %s %s",
+		vStr(cs.typ), vZ(int64(cs.level)), hdr, c16Strs(cs.preset), c16Strs(cs.rawCE), body, vN(uint64(cs.reads)), vBool(cs.chunked), vBool(cs.rerr), vBool(cs.cerr),
 		vZ(cs.max), algs, custom, vNat(cs.mw), vList(et), c16StreamTerm(decin), vList(dt),
 		vN(uint64(cs.cstate)), c16Strs(cs.wce), vBytes(cs.wbody), vZ(cs.wclObs()), cs.rewindObs(),
 		vN(uint64(cs.kind)), vZ(int64(cs.statusObs())), c16Strs(cs.hceObs()), vZ(cs.clObs()), vBytes(cs.dataObs()), vN(uint64(cs.errcObs())), cs.viewsTerm())
@@ -1520,6 +1565,11 @@ func c16HeadersDim(r *vRand, cs *c16Case) {
 // length as an independent input and has no method at all.
 func c16Framing(r *vRand, cs *c16Case, pChunked int) {
 	cs.chunked = r.Intn(100) < pChunked && !cs.nilBody && len(cs.body) > 0
+	// the body's Read pattern: every legal io.Reader behaviour (such a reader is opaque: no declared length)
+	if !cs.nilBody && len(cs.body) > 0 && !cs.rerr && !cs.cerr && r.Pick(62, 38) == 1 {
+		cs.reads = 1 + r.Pick(40, 20, 20, 20)
+		cs.chunked = true
+	}
 	if cs.chunked && c16CodecOfName(cs.typ) < 0 && c16First(cs.preset) == "" && !cs.large && r.Pick(55, 45) == 1 {
 		cs.max = int64(1 + r.Intn(len(cs.body))) // identity body without declared length, at or over the limit
 	}
@@ -1866,6 +1916,10 @@ func TestVerifC16(t *testing.T) {
 		}
 		if cs.chunked {
 			out.Stat("framing.client-body-without-length", 1)
+		}
+		out.Stat(fmt.Sprintf("reads.pattern-%d", cs.reads), 1)
+		if cs.reads != 0 && c16CodecOfName(cs.typ) >= 0 && c16First(cs.preset) == "" && cs.clientOK {
+			out.Stat("reads.shaped-body-through-compressor", 1)
 		}
 		if cs.mw > 0 && cs.clientOK {
 			out.Stat(fmt.Sprintf("middlewares.%d", cs.mw), 1)
